@@ -23,6 +23,7 @@ Rules (on all eight point-type instantiations, both estimate_ overloads, all fou
 Not decided: least-squares optimality numerics, 1e-9 recovery, order independence to rounding."""
 from ..tree import sx, walk, pp, strip_casts, const_value, short_fn
 from .C20 import m, deep_unwrap
+import re
 import sympy as sp
 from .. import sym
 
@@ -373,11 +374,72 @@ def check_bypass(fx, R, cname, f, tag):
     return True
 
 
+def check_guards_and_scalings(fx, R, cname, f, tag):
+    """V11: (a) the store of the rotation block into the result is unconditional - a guard on the singular values that is a tolerance test skips it for non-collinear sets; (b) a covariance rescaled in place
+    before the decomposition must be divided / multiplied by a quantity that is positive for every input (a cross-covariance has no sign: its largest signed entry can be negative).  True when a violation was reported."""
+    from .. import earlyexit
+    inst = 'FindRigidTransformationBySVD::estimate_/%s' % tag
+    reported = False
+
+    def visit(node, guards):
+        nonlocal reported
+        if not isinstance(node, dict):
+            return
+        k = node.get('k')
+        if k == 'Compound':
+            for x in node['s']:
+                visit(x, guards)
+            return
+        if k == 'If':
+            visit(node.get('t'), guards + [(node, True)])
+            visit(node.get('e'), guards + [(node, False)])
+            return
+        if k in ('For', 'While', 'RangeFor', 'Do'):
+            visit(node.get('b'), guards)
+            return
+        if k != 'Expr':
+            return
+        t = deep_unwrap(sx(node['e']))
+        if isinstance(t, tuple) and len(t) == 3 and t[0] == '=' and isinstance(t[1], tuple) and t[1][0] == '.block' and t[1][2:4] == (0, 0) and 'CARTESIAN_DIM' in str(t[1][4:]) \
+                and any(n_ in str(t[2]) for n_ in ('matrixU', 'matrixV', "'u'", "'v'")) and guards:
+            g, pol = guards[-1]
+            ctext = pp(g['c'])
+            sing = 'singularValues' in ctext
+            tol = earlyexit.is_tolerance_test(g['c']) or ('a comparison of one singular value with a constant multiple of another' if sing and re.search(r'\b\d(\.\d*)?e-\d+|0\.0+\d', ctext) else None)
+            if tol and sing:
+                reported = True
+                R.violated('V11', inst + ':rotation-store:guarded', 'the rotation block of the result is written only when `%s` (%s); otherwise it keeps the identity the result was initialised with.  The singular values of the '
+                           'covariance are VARIANCES along the principal axes: a ratio below the constant is reached by thin but not collinear sets (a width-to-length ratio of the square root of the constant), for which the '
+                           'statement still demands the exact motion - those sets come back with no rotation at all [%s]' % (ctext[:140], tol, cname), fx.rel(g['loc']), 'E-STATE')
+            elif guards:
+                R.undecided('V11', inst + ':rotation-store:guarded', 'the rotation block of the result is written under `%s`; whether the condition can fail for non-collinear sets is not decided' % ctext[:140])
+        # in-place scaling of the covariance
+        if isinstance(t, tuple) and len(t) == 3 and t[0] in ('/=', '*=') and t[1] in ('cov', 'covariance', 'this.covariance_', 'this.cov_'):
+            q = t[2]
+            qs = str(q)
+            positive = any(n_ in qs for n_ in ("'.norm'", "'.squaredNorm'", "'.lpNorm'", "'.size'", 'numberOf')) or ("'.maxCoeff'" in qs and ("'.cwiseAbs'" in qs or "'.abs'" in qs)) or isinstance(q, (int, float)) and q > 0
+            signed = ("'.maxCoeff'" in qs or "'.minCoeff'" in qs or "'.sum'" in qs or "'.trace'" in qs or "'.mean'" in qs or "'()'" in qs) and not positive
+            if signed:
+                reported = True
+                R.violated('V11', inst + ':covariance-scaling:signed', 'the covariance is rescaled in place by `%s` before the decomposition.  The cross-covariance of two centred sets has no sign: for a rotation close to a '
+                           'half turn of an elongated cloud every entry of its Cartesian block is negative, so this SIGNED quantity is negative, the covariance changes sign and the factors U, V of -C are not those of C '
+                           '(in 3D the reflection correction then fires on a regular input): the returned matrix is a proper rotation, but of another motion.  Only a quantity that is positive for every input (a norm, '
+                           'the largest ABSOLUTE entry) leaves the rotation unchanged [%s]' % (pp(node['e'])[:120], cname), fx.rel(node['loc']), 'E-ALG')
+            elif not positive:
+                R.undecided('V11', inst + ':covariance-scaling', 'the covariance is rescaled in place by `%s`; positivity of that quantity is not decided' % pp(node['e'])[:120])
+            else:
+                R.holds('V11', inst + ':covariance-scaling', 'rescaled by a quantity that is positive for every input', fx.rel(node['loc']), 'E-ALG')
+    visit(f.get('body'), [])
+    return reported
+
+
 def check_estimate(fx, R, cname, f, tag, v9=None):
     inst = 'FindRigidTransformationBySVD::estimate_/%s' % tag
     ptag = ' [%s]' % cname
     ev = events(f)
     bypass = check_bypass(fx, R, cname, f, tag)
+    if check_guards_and_scalings(fx, R, cname, f, tag):
+        return None
     D = cdim(f, fx)
     # ---- locate the anchors ---------------------------------------------
     rot = [i for i, e in enumerate(ev) if e[0] == 'expr' and m(('=', ('.block', '$H', 0, 0, 'CARTESIAN_DIM', 'CARTESIAN_DIM'), '$RHS'), e[1], {})]
